@@ -38,7 +38,8 @@ ASSUMPTIONS = [
 
 FLAGSETS = [(), ("--include-submodules",), ("--include-meson-subprojects",), ("--include-submodules", "--include-meson-subprojects")]
 case_strategy = st.tuples(GT.tree_spec(), st.sampled_from(FLAGSETS), st.booleans(), st.lists(st.integers(0, 1000), min_size=1, max_size=3),
-                          st.integers(0, 3).map(lambda k: k == 0))  # last: project root below the top of the Git work tree
+                          st.integers(0, 3).map(lambda k: k == 0),  # project root below the top of the Git work tree
+                          st.integers(0, 3).map(lambda k: k == 0))  # commands run from an unrelated working directory with --root <absolute>
 
 
 def expected(root: Path, spec, flags):
@@ -115,8 +116,10 @@ def check_tree(ctx, case):
     spec, flags, mp = case[:3]
     picks = case[3] if len(case) > 3 else [0]
     nested = bool(len(case) > 4 and case[4] and spec["git"])
+    outside = bool(len(case) > 5 and case[5] and not nested)
     base = ctx.fresh_dir()
     root = base
+    elsewhere = None
     copy = None
     copy2 = None
     copybase = copybase2 = None
@@ -130,13 +133,19 @@ def check_tree(ctx, case):
             flags = tuple(flags) + ("--root", ".")
         else:
             GT.materialise(root, spec)
+        copy_flags = tuple(flags)  # the annotate observations run inside their own copy of the tree
+        run_cwd = root
+        if outside:
+            elsewhere = ctx.fresh_dir("elsewhere")
+            run_cwd = elsewhere
+            flags = tuple(flags) + ("--root", str(root))
         verdicts = expected(root, spec, flags)
         cov = {p for p, (v, _w) in verdicts.items() if v == RC.COVERED}
         exc = {p for p, (v, _w) in verdicts.items() if v == RC.EXCLUDED}
         unspec = {p for p, (v, _w) in verdicts.items() if v == RC.UNSPEC}
         calshl = {p for p, (v, w) in verdicts.items() if w == "cal-shl-name"}
-        cdict = {"nodes": spec["nodes"], "git": spec["git"], "flags": [f for f in flags if f not in ("--root", ".")], "mp": mp, "picks": list(picks), "nested": nested}
-        labels = [f"git:{bool(spec['git'])}", f"flags:{' '.join(f for f in flags if f not in ('--root', '.')) or '-'}", f"root-below-worktree-top:{nested}"]
+        cdict = {"nodes": spec["nodes"], "git": spec["git"], "flags": [f for f in flags if f.startswith("--include")], "mp": mp, "picks": list(picks), "nested": nested, "outside": outside}
+        labels = [f"git:{bool(spec['git'])}", f"flags:{' '.join(f for f in flags if f.startswith('--include')) or '-'}", f"root-below-worktree-top:{nested}", f"cwd-outside:{outside}"]
         labels += sorted({f"rule:{w}" for (_v, w) in verdicts.values()})
         if spec["git"] and spec["git"]["submodules"]:
             labels.append("has-submodule")
@@ -159,14 +168,14 @@ def check_tree(ctx, case):
                 ctx.fail(cdict, f"{what}: covered files skipped: {sorted(missing)}; excluded files examined: {sorted(extra)}; model says {why}", sig)
 
         # 1. lint --json
-        res, data = tree.lint_json(root, extra=flags, mp=mp)
+        res, data = tree.lint_json(root, extra=flags, mp=mp, cwd=run_cwd)
         if data is None:
             ctx.fail(cdict, f"lint --json failed: {res.brief()}")
-        read_errors = {rel(root, e, root) for e in data["non_compliant"]["read_errors"]}
+        read_errors = {rel(root, e, run_cwd) for e in data["non_compliant"]["read_errors"]}
         obs = {f["path"] for f in data["files"]} | read_errors
         judge(obs, "lint --json")
         # 2. spdx
-        res = cli.run([*flags, "--no-multiprocessing", "spdx"], root)
+        res = cli.run([*flags, "--no-multiprocessing", "spdx"], run_cwd)
         if res.crash is not None or res.code != 0:
             ctx.fail(cdict, f"spdx failed: {res.brief()}")
         obs = {ln[len("FileName: ./"):] for ln in res.out.splitlines() if ln.startswith("FileName: ./")}
@@ -177,14 +186,14 @@ def check_tree(ctx, case):
         rroot = root.resolve()
         args = [p for p in verdicts if os.path.exists(root / p) and (root / p).resolve().is_relative_to(rroot)]
         if args:
-            res = cli.run([*flags, "--no-multiprocessing", "lint-file", "--", *args], root)
+            res = cli.run([*flags, "--no-multiprocessing", "lint-file", "--", *([str(root / a) for a in args] if outside else args)], run_cwd)
             if res.crash is not None or res.code not in (0, 1):
                 ctx.fail(cdict, f"lint-file failed: {res.brief()}")
             obs = set()
             for ln in res.out.splitlines():
                 m = _LINTFILE.match(ln)
                 if m:
-                    obs.add(rel(root, m[1], root))
+                    obs.add(rel(root, m[1], run_cwd))
             judge(obs, "lint-file <every path>")
         # 4. annotate -r . on a throw-away copy
         copybase = ctx.fresh_dir("copy")
@@ -192,7 +201,7 @@ def check_tree(ctx, case):
         GT.copytree(base, copybase)
         copy = copybase / "pkg" if nested else copybase
         before = snapshot(copy)
-        res = cli.run([*flags, "annotate", "--copyright", "Verif", "--license", "MIT", "--year", "2020", "--fallback-dot-license", "-r", "."], copy)
+        res = cli.run([*copy_flags, "annotate", "--copyright", "Verif", "--license", "MIT", "--year", "2020", "--fallback-dot-license", "-r", "."], copy)
         if res.crash is not None:
             ctx.label("annotate-crashed")
         elif res.code == 2:
@@ -218,7 +227,7 @@ def check_tree(ctx, case):
             GT.copytree(base, copybase2)
             copy2 = copybase2 / "pkg" if nested else copybase2
             before = snapshot(copy2)
-            res = cli.run([*flags, "annotate", "--copyright", "Verif", "--license", "MIT", "--year", "2020", "--fallback-dot-license", "-r", *chosen], copy2)
+            res = cli.run([*copy_flags, "annotate", "--copyright", "Verif", "--license", "MIT", "--year", "2020", "--fallback-dot-license", "-r", *chosen], copy2)
             if res.crash is None and res.code != 2:
                 after = snapshot(copy2)
                 obs = set()
@@ -239,6 +248,8 @@ def check_tree(ctx, case):
                 ctx.label("annotate-r-subdirs")
     finally:
         tree.rmtree(base)
+        if elsewhere is not None and elsewhere.exists():
+            tree.rmtree(elsewhere)
         if copybase is not None and copybase.exists():
             tree.rmtree(copybase)
         if copybase2 is not None and copybase2.exists():
@@ -247,7 +258,7 @@ def check_tree(ctx, case):
 
 def replay(ctx, case):
     spec = {"nodes": {k: tuple(v) for k, v in case["nodes"].items()}, "git": case["git"]}
-    check_tree(ctx, (spec, tuple(case["flags"]), case.get("mp", False), case.get("picks", [0, 1, 2]), case.get("nested", False)))
+    check_tree(ctx, (spec, tuple(case["flags"]), case.get("mp", False), case.get("picks", [0, 1, 2]), case.get("nested", False), case.get("outside", False)))
 
 
 def run(ctx):
